@@ -3,6 +3,7 @@
 //   facts calls  <file.go> <funcname>    prints one line per call of funcname(...) at package level or anywhere,
 //                                        with each argument rendered as source text
 //   facts cases  <file.go> <func>        prints the case labels of every switch in the named function
+//   facts constsoftype <pkgdir> <Type>   prints "<name> <value>" for every package-level constant of the named type
 package main
 
 import (
@@ -83,6 +84,43 @@ func main() {
 				fail("constant %s not found in %s", name, os.Args[2])
 			}
 			fmt.Printf("%s %s\n", name, c.Val().ExactString())
+		}
+	case "constsoftype":
+		// facts constsoftype <pkgdir> <TypeName>: every package-level constant whose declared type is the named
+		// type, in source order: "<name> <exact value>" (aliases such as `CmdA = CmdB` are printed too)
+		fset, files := loadPkg(os.Args[2])
+		conf := types.Config{Importer: &fakeImporter{pkgs: map[string]*types.Package{}}, Error: func(error) {}, FakeImportC: true}
+		pkg, _ := conf.Check("p", fset, files, nil)
+		if pkg == nil || len(os.Args) < 4 {
+			fail("type check produced nothing")
+		}
+		type cv struct {
+			name string
+			pos  token.Pos
+			val  string
+		}
+		var out []cv
+		for _, name := range pkg.Scope().Names() {
+			c, ok := pkg.Scope().Lookup(name).(*types.Const)
+			if !ok || c.Val().Kind() == constant.Unknown {
+				continue
+			}
+			nt, ok := c.Type().(*types.Named)
+			if !ok || nt.Obj().Name() != os.Args[3] || nt.Obj().Pkg() != pkg {
+				continue
+			}
+			out = append(out, cv{name, c.Pos(), c.Val().ExactString()})
+		}
+		if len(out) == 0 {
+			fail("no constant of type %s in %s", os.Args[3], os.Args[2])
+		}
+		for i := 1; i < len(out); i++ {
+			for j := i; j > 0 && out[j].pos < out[j-1].pos; j-- {
+				out[j], out[j-1] = out[j-1], out[j]
+			}
+		}
+		for _, c := range out {
+			fmt.Printf("%s %s\n", c.name, c.val)
 		}
 	case "calls":
 		fset := token.NewFileSet()
